@@ -12,8 +12,11 @@ RULE = ('case = (boolean table, construction algorithm in {default=Lindig, CbO, 
         'lattice built by the REAL from_context: every concept (descendants/ancestors/children/parents), top/bottom, '
         'listing order, get_chains(), meet/join (and the supremum/infimum aliases) of every ordered selection of <=3 '
         'concepts (capped by a seeded sample on big lattices) and of the empty selection; exhaustive over all tables of '
-        'the tier scope x 3 algorithms, then seeded random/structured tables up to 6x6 and tall tables 11-13 x 1-3 (two-digit object indexes in the sort key); non-trivial = table neither '
-        'all-true nor all-false; distinct = distinct (table, algorithm)')
+        'the tier scope x 3 algorithms, then seeded random/structured tables up to 6x6 and tall tables 11-13 x 1-3 (two-digit object indexes in the sort key); plus dynamic lattices (built by add, pruned, merged) and HISTORIES on one lattice object '
+        '(looks = every order query + joins/meets + dict views + chains, remove/del, add with and without fill_up_cache, no-op adds; '
+        'half of them with a hostile caller mutating returned containers in place), whose intermediate and final states are '
+        'judged by the spec for the CURRENT content; non-trivial = table neither '
+        'all-true nor all-false; distinct = distinct (table, algorithm, dynamic/history program)')
 EXHAUSTIVE = {'quick': 'all tables n,m<=3 (682) x {Lindig, CbO, Sofia} x all concepts x all ordered selections of <=3 concepts',
               'thorough': 'all tables with n*m<=12, n,m<=4 (9418) x 3 algorithms x all concepts x all ordered selections of <=3 concepts'}
 EXPLANATION = ('every observable except the chain decomposition is pinned uniquely by the property, so the implementation\'s '
@@ -85,6 +88,18 @@ def gen(tier, seed, boost=False):
         rows = G.random_table(rd, 7, 6, nmin=5, mmin=4)
         for _k in range(3):
             yield dict(stream='dynamic-large', rows=rows, algo='CbO', sub_seed=rd.randrange(1 << 30), dyn=['build', rd.randrange(1 << 30)])
+    # histories on ONE lattice object (any algorithm): looks (all queries, joins/meets, dict views, chains), remove/del,
+    # add with and without fill_up_cache, no-op adds; half of them with a hostile caller that mutates returned
+    # containers in place; judged: up to two intermediate states and the final state (complete or pruned)
+    rh = random.Random(seed * 104729 + 71)
+    htabs = [rows for rows in G.tables_upto(3, 3) if G.is_mixed(rows)]
+    rh.shuffle(htabs)
+    htabs = htabs[:220 if tier == 'quick' else 600] + \
+        [G.random_table(rh, 6, 5, nmin=3, mmin=3) for _ in range(160 if tier == 'quick' else 2500)]
+    for rows in htabs:
+        for hostile in (0, 1):
+            yield dict(stream='history', rows=rows, algo=rh.choice(ALGOS), sub_seed=rh.randrange(1 << 30),
+                       hist=[rh.randrange(1 << 30), hostile])
     nrand = 150 if tier == 'quick' else 3000
     if boost:
         nrand *= 3
@@ -128,7 +143,172 @@ def _opt(x):
 
 
 
-class NonTermination(Exception):
+def _poke(v, r):
+    """a hostile-but-legal caller: in-place mutation of a RETURNED value when it is a mutable container.
+    On the correct code the order queries return frozensets / fresh containers, so this changes nothing."""
+    try:
+        if isinstance(v, set):
+            k = r.randrange(3)
+            if k == 0 and v:
+                v.clear()
+            elif k == 1 and v:
+                v.pop()
+            else:
+                v.add(r.randrange(0, 3))
+                v.add(997)
+        elif isinstance(v, list):
+            for x in v:
+                if isinstance(x, (set, list, dict)):
+                    _poke(x, r)
+            if v and r.random() < 0.5:
+                v.pop()
+            else:
+                v.append(997)
+        elif isinstance(v, dict):
+            for x in list(v.values()):
+                if isinstance(x, (set, list, dict)):
+                    _poke(x, r)
+            if v and r.random() < 0.5:
+                v.pop(next(iter(v)))
+            else:
+                v[997] = frozenset()
+    except Exception:
+        pass
+
+
+def _snapshot(L, sub_seed, subs=None, poke=None):
+    """every order observable of the lattice as it is now (canonical); `poke` = RNG of the hostile caller or None"""
+    def q(v):
+        rec = sorted(ints(v))
+        if poke is not None and poke.random() < 0.5:
+            _poke(v, poke)
+        return rec
+
+    def qd(d):
+        rec = {int(k): sorted(ints(v)) for k, v in d.items()}
+        if poke is not None and poke.random() < 0.5:
+            _poke(d, poke)
+        return rec
+    n = len(L)
+    rng_ = range(n)
+    out = dict(
+        cs=[[ints(x.extent_i), ints(x.intent_i)] for x in L],
+        elems_same=[[ints(x.extent_i), ints(x.intent_i)] for x in L.elements] == [[ints(x.extent_i), ints(x.intent_i)] for x in L],
+        desc=[q(L.descendants(i)) for i in rng_],
+        anc=[q(L.ancestors(i)) for i in rng_],
+        children=[q(L.children(i)) for i in rng_],
+        parents=[q(L.parents(i)) for i in rng_],
+        top=_opt(L.top), bottom=_opt(L.bottom),
+    )
+    try:
+        chs = L.get_chains()
+        out['chains'] = [ints(ch) for ch in chs]
+        if poke is not None:
+            _poke(chs, poke)
+    except Exception as e:
+        if poke is None:
+            raise
+        out['chains'] = []
+    # dict views must agree with the per-element queries
+    out['dicts_same'] = (
+        qd(L.children_dict) == dict(enumerate(out['children']))
+        and qd(L.parents_dict) == dict(enumerate(out['parents']))
+        and qd(L.descendants_dict) == dict(enumerate(out['desc']))
+        and qd(L.ancestors_dict) == dict(enumerate(out['anc'])))
+    if subs is None:
+        subs = _subsets(n, sub_seed)
+    out['subsets'] = subs
+    meets, joins, alias_ok = [], [], True
+    for S in subs:
+        arg = list(S)
+        try:
+            mt = _opt(L.meet(arg))
+        except Exception as e:
+            mt = {'err': exc_name(e)}
+        try:
+            jn = _opt(L.join(arg))
+        except Exception as e:
+            jn = {'err': exc_name(e)}
+        meets.append(mt)
+        joins.append(jn)
+        if len(S) == 2:
+            alias_ok = alias_ok and _opt(L.infimum(list(S))) == mt and _opt(L.supremum(list(S))) == jn
+        if arg != list(S):
+            alias_ok = False        # the caller's index list was modified
+    out['meets'], out['joins'], out['alias_ok'] = meets, joins, alias_ok
+    return out
+
+
+def _small_subsets(n, r):
+    """the selections a look asks joins/meets for (they are asked again on the final lattice)"""
+    out = [[]] + [[i] for i in range(n)]
+    pairs = [list(p) for p in itertools.permutations(range(n), 2)]
+    out += pairs if len(pairs) <= 60 else r.sample(pairs, 60)
+    if n >= 3:
+        out += [r.sample(range(n), 3) for _ in range(25)]
+    if n >= 4:
+        out += [r.sample(range(n), r.randint(4, min(n, 6))) for _ in range(4)]
+    return out
+
+
+def _history(L, hist, sub_seed):
+    """A seeded program of public calls on ONE lattice object: looks (every order query, joins/meets, dict views,
+    chains; optionally with a hostile caller mutating the returned containers in place), remove / del of inner
+    concepts, add (with and without fill_up_cache; of a removed concept or of one that is present = no-op).
+    Returns (lattice, judged intermediate snapshots, step names, final list is pruned?)."""
+    seed, hostile = hist
+    r = random.Random(seed)
+    steps, pre, removed = [], [], []
+
+    def look(judged):
+        poke = r if (hostile and r.random() < 0.7) else None
+        snap = _snapshot(L, sub_seed, subs=_small_subsets(len(L), r), poke=poke)
+        steps.append('look' + (':poke' if poke is not None else ''))
+        if judged and poke is None and len(pre) < 2:
+            pre.append(snap)
+
+    def inner():
+        return [i for i in range(len(L)) if i not in (L.top, L.bottom)]
+
+    if r.random() < 0.7:
+        look(judged=False)       # the freshly built lattice is what the plain streams judge
+    for _ in range(r.randint(1, 4)):
+        k = r.random()
+        if k < 0.45 and inner():
+            i = r.choice(inner())
+            x = L[i]
+            if r.random() < 0.5:
+                del L[i]
+                steps.append('del')
+            else:
+                L.remove(x)
+                steps.append('remove')
+            removed.append(x)
+        elif k < 0.8 and removed:
+            x = removed.pop(r.randrange(len(removed)))
+            fill = r.random() < 0.5
+            L.add(x, fill_up_cache=fill)
+            steps.append('add' if fill else 'add:nofill')
+        elif k < 0.9:
+            x = L[r.randrange(len(L))]
+            fill = r.random() < 0.5
+            L.add(x, fill_up_cache=fill)      # already present: must be a no-op
+            steps.append('add-present' if fill else 'add-present:nofill')
+        if r.random() < 0.75:
+            look(judged=True)
+    if removed and r.random() < 0.75:
+        r.shuffle(removed)
+        for x in removed:
+            fill = r.random() < 0.5
+            L.add(x, fill_up_cache=fill)
+            steps.append('add' if fill else 'add:nofill')
+            if r.random() < 0.3:
+                look(judged=False)
+        removed = []
+    return L, pre, steps, bool(removed)
+
+
+class NonTermination(BaseException):
     """the implementation did not answer within the per-case time limit (a loop that does not terminate)"""
 
 
@@ -217,42 +397,14 @@ def _impl(c):
                     for _k in range(r.randint(0, 2)):
                         r.choice([L.children, L.parents])(r.randrange(len(L)))
                     L.add(x)
-        n = len(L)
-        rng_ = range(n)
-        out = dict(
-            cs=[[ints(x.extent_i), ints(x.intent_i)] for x in L],
-            elems_same=[[ints(x.extent_i), ints(x.intent_i)] for x in L.elements] == [[ints(x.extent_i), ints(x.intent_i)] for x in L],
-            desc=[sorted(ints(L.descendants(i))) for i in rng_],
-            anc=[sorted(ints(L.ancestors(i))) for i in rng_],
-            children=[sorted(ints(L.children(i))) for i in rng_],
-            parents=[sorted(ints(L.parents(i))) for i in rng_],
-            top=_opt(L.top), bottom=_opt(L.bottom),
-            chains=[ints(ch) for ch in L.get_chains()],
-        )
-        # dict views must agree with the per-element queries
-        out['dicts_same'] = (
-            {k: sorted(v) for k, v in L.children_dict.items()} == dict(enumerate(out['children']))
-            and {k: sorted(v) for k, v in L.parents_dict.items()} == dict(enumerate(out['parents']))
-            and {k: sorted(v) for k, v in L.descendants_dict.items()} == dict(enumerate(out['desc']))
-            and {k: sorted(v) for k, v in L.ancestors_dict.items()} == dict(enumerate(out['anc'])))
-        subs = _subsets(n, c.get('sub_seed', 0))
-        out['subsets'] = subs
-        meets, joins, alias_ok = [], [], True
-        for S in subs:
-            try:
-                mt = _opt(L.meet(list(S)))
-            except Exception as e:
-                mt = {'err': exc_name(e)}
-            try:
-                jn = _opt(L.join(list(S)))
-            except Exception as e:
-                jn = {'err': exc_name(e)}
-            meets.append(mt)
-            joins.append(jn)
-            if len(S) == 2:
-                alias_ok = alias_ok and _opt(L.infimum(list(S))) == mt and _opt(L.supremum(list(S))) == jn
-        out['meets'], out['joins'], out['alias_ok'] = meets, joins, alias_ok
-        if c['algo'] is None and not dyn:
+        hist = c.get('hist')
+        pre, steps, final_pruned = [], [], False
+        if hist:
+            L, pre, steps, final_pruned = _history(L, hist, c.get('sub_seed', 0))
+        out = _snapshot(L, c.get('sub_seed', 0))
+        if hist:
+            out['pre'], out['steps'], out['final_pruned'] = pre, steps, final_pruned
+        if c['algo'] is None and not dyn and not hist:
             R = cca.lindig_algorithm(K)
             out['lindig'] = dict(
                 cs0=[[ints(x.extent_i), ints(x.intent_i)] for x in R],
@@ -266,8 +418,12 @@ def requests(c, io):
     rows = c['rows']
     if 'err' in io:
         return []
-    return [dict(op='C03.lattice', rows=rows, w=len(rows[0]), cs=io['cs'], subsets=io['subsets'],
+    reqs = [dict(op='C03.lattice', rows=rows, w=len(rows[0]), cs=io['cs'], subsets=io['subsets'],
                  chains=io['chains'], lindig=io.get('lindig'))]
+    for snap in io.get('pre', []):
+        reqs.append(dict(op='C03.lattice', rows=rows, w=len(rows[0]), cs=snap['cs'], subsets=snap['subsets'],
+                         chains=snap['chains'], lindig=None))
+    return reqs
 
 
 def _first_diff(a, b):
@@ -277,13 +433,51 @@ def _first_diff(a, b):
     return None, len(a), len(b)
 
 
+def _judge_state(snap, r, P, where):
+    """relations, top/bottom (and, when the list is complete, meets/joins) of one recorded state against the spec"""
+    if not r['hypSub']:
+        return P('concepts', where + f'not a duplicate-free list of concepts of the table: {snap["cs"]}')
+    for m_, s_ in (('desc', 'sdesc'), ('anc', 'sanc'), ('children', 'lower'), ('parents', 'upper')):
+        if r[m_] != r[s_]:
+            return dict(ok=False, kind='harness', detail=where + f'model {m_} {r[m_]} != spec {r[s_]}')
+    for f, s_, name in (('desc', 'sdesc', 'descendants'), ('anc', 'sanc', 'ancestors'),
+                        ('children', 'lower', 'children'), ('parents', 'upper', 'parents')):
+        if snap[f] != r[s_]:
+            i, x, y = _first_diff(snap[f], r[s_])
+            return P(name, where + f'{name}({i}) = {x}, extent inclusion within the list gives {y}; concepts {snap["cs"]}')
+    if [snap['top']] != r['stop'] or [snap['bottom']] != r['sbottom']:
+        return P('top', where + f'top/bottom = {snap["top"]}/{snap["bottom"]}, expected {r["stop"]}/{r["sbottom"]}')
+    if not snap['dicts_same'] or not snap['elems_same']:
+        return P('dicts', where + 'dict views differ from the per-element queries')
+    if r['hyp']:
+        for k, S in enumerate(snap['subsets']):
+            sm = r['smeets'][k] if S else r['sbottom']
+            sj = r['sjoins'][k] if S else r['stop']
+            if [snap['meets'][k]] != sm:
+                return P('meet', where + f'meet({S}) = {snap["meets"][k]}, the concept with the intersection of the extents is {sm}')
+            if [snap['joins'][k]] != sj:
+                return P('join', where + f'join({S}) = {snap["joins"][k]}, the concept with the intersection of the intents is {sj}')
+        if not snap['alias_ok']:
+            return P('alias', where + 'supremum/infimum differ from join/meet (or the index list passed was modified)')
+    return None
+
+
 def judge(c, io, rep):
     if 'err' in io:
         return dict(ok=False, kind='property', what='raise',
                     detail=f'from_context/query raised {io["err"]}: {io.get("msg")}')
-    r = rep[0]
     P = lambda what, detail: dict(ok=False, kind='property', what=what, detail=detail)
-    pruned = bool(c.get('dyn')) and c['dyn'][0] == 'del'
+    hist = bool(c.get('hist'))
+    # intermediate states of a history (between two mutations): judged like any other lattice with that content
+    for k, snap in enumerate(io.get('pre', [])):
+        v = _judge_state(snap, rep[1 + k], P, f'history {io.get("steps")}: intermediate state {k}: ')
+        if v is not None:
+            return v
+    r = rep[0]
+    if hist:
+        P0 = P
+        P = lambda what, detail: P0(what, f'after the history {io.get("steps")}: ' + detail)
+    pruned = (bool(c.get('dyn')) and c['dyn'][0] == 'del') or (hist and io.get('final_pruned'))
     if pruned:
         # a sub-list of the concepts (top and bottom kept): the order relations are still those of extent inclusion
         # within the list; meet/join/chains/listing are not judged here (theorems Fca.C03.pruned_relations /
@@ -311,7 +505,7 @@ def judge(c, io, rep):
     for m, s in (('desc', 'sdesc'), ('anc', 'sanc'), ('children', 'lower'), ('parents', 'upper')):
         if r[m] != r[s]:
             return dict(ok=False, kind='harness', detail=f'model {m} {r[m]} != spec {r[s]}')
-    dyn = bool(c.get('dyn'))
+    dyn = bool(c.get('dyn')) or hist
     if [r['top']] != r['stop'] or [r['bottom']] != r['sbottom'] or not r['orderIndep'] or (not r['modelChainsOk'] and not dyn):
         return dict(ok=False, kind='harness', detail=f'model top/bottom/order-independence/chains inconsistent with spec: {r["top"]} '
                                                       f'{r["stop"]} {r["bottom"]} {r["sbottom"]} {r["orderIndep"]} {r["modelChainsOk"]}')
@@ -374,7 +568,7 @@ def nontrivial(c):
 
 
 def key(c):
-    return [c['rows'], c['algo'], c.get('dyn')]
+    return [c['rows'], c['algo'], c.get('dyn'), c.get('hist')]
 
 
 def branch(c, io, rep):
@@ -389,11 +583,17 @@ def branch(c, io, rep):
     if any(x is None for x in io['meets'] + io['joins']):
         out.append('meet/join=None')
     out.append(f'chains={min(len(io["chains"]), 5)}')
+    if c.get('hist'):
+        st = io.get('steps', [])
+        out.append('history:' + ('hostile-caller' if c['hist'][1] else 'plain') + (':final-pruned' if io.get('final_pruned') else ':final-complete'))
+        for a in sorted(set(x.split(':')[0] + (':nofill' if x.endswith('nofill') else '') + (':poke' if x.endswith('poke') else '') for x in st)):
+            out.append('history-step:' + a)
+        out.append(f'history:judged-intermediate-states={len(io.get("pre", []))}')
     return out
 
 
 def signature(c, io, rep, v):
-    return f"C03:{c['algo'] or 'Lindig'}:{v.get('kind')}:{v.get('what', '?')}"
+    return f"C03:{c['algo'] or 'Lindig'}:{'history:' if c.get('hist') else ''}{v.get('kind')}:{v.get('what', '?')}"
 
 
 def shrink(c):
